@@ -9,7 +9,7 @@ from . import common, topos
 from .common import Report
 from .protocheck import Engine, replay_witness
 
-PROPS = ('C07_OneBranch', 'C07_Rejoin', 'C01_SameId')
+PROPS = ('C07_OneBranch', 'C07_Rejoin', 'C01_SameId', 'NoCrash')
 INV = ('C07', 'C01', 'NoCrash')
 
 
@@ -29,11 +29,13 @@ def scenarios(quick):
         mut=[(T.balance2(maxseq=2), 'SpecZL', ['bal_all_pubs'], {})],
         conf=[(T.balance2(maxseq=3), 'SpecPrompt', 10 if quick else 120, 250),
               (slow1, 'SpecPrompt', 8 if quick else 100, 300),
-              (T.balance2_watch(maxseq=3), 'SpecPrompt', 6 if quick else 80, 250)],
+              (T.balance2_watch(maxseq=3), 'SpecPrompt', 6 if quick else 80, 250),
+              (T.balance2_multi(maxseq=3), 'Spec', 8 if quick else 100, 300)],
         rand=[(T.balance2(maxseq=6), 8 if quick else 150, 1200, 0.03),
               (slow1b, 8 if quick else 150, 1500, 0.03),
               (T.balance3(maxseq=6), 8 if quick else 150, 1800, 0.03),
-              (T.balance2_watch(maxseq=5), 6 if quick else 100, 1200, 0.05)],
+              (T.balance2_watch(maxseq=5), 6 if quick else 100, 1200, 0.05),
+              (T.balance2_multi(maxseq=6), 12 if quick else 200, 1500, 0.08)],
     )
 
 
@@ -49,6 +51,7 @@ def run(ctx):
         eng.model_check(topo, spec, invariants=INV, bounds=bounds, timeout=900 if ctx.quick else 3000)
     for topo, spec, muts, bounds in sc['mut']:
         eng.mutation_schedules(topo, spec, muts, invariant='C07', bounds=bounds, timeout=150 if ctx.quick else 900)
+    eng.stored_schedules('C07_')
     for topo, spec, num, depth in sc['conf']:
         eng.conformance(topo, spec, num, depth)
     eng.cover(topos.balance2(maxseq=0), 'SpecZL', max_paths=150 if ctx.quick else None)
